@@ -745,6 +745,12 @@ class Interp(object):
                         return r
                     return (not r) if isinstance(r, bool) else Bo(mk_not(r.e))
                 r = a is b
+            elif isinstance(a, (Bo, bool)) and isinstance(b, (Bo, bool)):
+                # True / False are singletons: `is` on booleans is equality
+                r = self.compare('eq', a, b)
+                if op == 'is':
+                    return r
+                return (not r) if isinstance(r, bool) else Bo(mk_not(r.e))
             elif isinstance(a, (Sc, Bo)) or isinstance(b, (Sc, Bo)):
                 raise Unsupported('identity test on symbolic value')
             else:
